@@ -585,7 +585,8 @@ static void run_hist(const char *args)
  * pre-filled with 0x5A / 0xA5, reading <rows> scan lines per call; every sample of every row
  * reported as produced must be the same in both runs (i.e. was written by the library).
  * flags: bit0 do_fancy_upsampling, bit1 JDCT_IFAST, bits2-3 rows per call - 1, bit4 out colour space
- * variant, bit5 scale 1/2, bit6 do_block_smoothing off, bit7 skip_scanlines in the middle, bit8 RGB565 output */
+ * variant, bit5 scale 1/2, bit6 do_block_smoothing off, bit7 skip_scanlines in the middle, bit8 RGB565 output,
+ * bit9 RGB565 stride +2 (rows alternate 4-byte alignment), bit10 RGB565 rows start at base+2 */
 static unsigned long crop_once(const unsigned char *buf, size_t len, int flags, JDIMENSION xo, JDIMENSION cw, int fill, long *rows_out, int *err)
 {
   struct jpeg_decompress_struct c; struct my_err e; unsigned long hh = 7; volatile long rows = 0; unsigned char *volatile rowbuf = NULL;
@@ -600,7 +601,7 @@ static unsigned long crop_once(const unsigned char *buf, size_t len, int flags, 
   if (jpeg_read_header(&c, TRUE) != JPEG_HEADER_OK) { *err = -2; goto done; }
   if ((unsigned long long)c.image_width * c.image_height > MAXPIXELS || c.master->lossless || c.data_precision > 12) { *err = -3; goto done; }
   {
-    int prec = c.data_precision, ssz = prec <= 8 ? 1 : 2, k; JSAMPROW rp[4]; size_t rowbytes, rowstride = 0;
+    int prec = c.data_precision, ssz = prec <= 8 ? 1 : 2, k; JSAMPROW rp[4]; size_t rowbytes, rowstride = 0, rowalloc = 0; unsigned char *rowbase = NULL;
     c.do_fancy_upsampling = flags & 1; c.dct_method = (flags & 2) ? JDCT_IFAST : JDCT_ISLOW;
     c.do_block_smoothing = (flags & 64) ? FALSE : TRUE;
     if (flags & 32) { c.scale_num = 1; c.scale_denom = 2; }
@@ -612,12 +613,18 @@ static unsigned long crop_once(const unsigned char *buf, size_t len, int flags, 
     if (xo >= c.output_width) xo = c.output_width - 1;
     if (cw == 0 || xo + cw > c.output_width) cw = c.output_width - xo;
     if (prec <= 8) jpeg_crop_scanline(&c, &xo, &cw); else jpeg12_crop_scanline(&c, &xo, &cw);
-    /* RGB565: 2 bytes per pixel are produced (out_color_components is 3); rows of 16-bit pixels must be
-       4-byte aligned for the library's packed stores, as any array of such pixels is */
+    /* RGB565: 2 bytes per pixel are produced (out_color_components is 3).  Rows of 16-bit pixels are 2-byte
+       aligned but need NOT be 4-byte aligned: odd seeds start the rows at base+2 and use a 2-byte-granular
+       stride, so that consecutive rows alternate between the two alignments; the allocation ends exactly at
+       the end of the last row (any overrun is an ASan report). */
     rowbytes = (size_t)c.output_width * (c.out_color_space == JCS_RGB565 ? 2 : c.output_components) * ssz;
-    { size_t stride = (rowbytes + 3) & ~(size_t)3;
-      rowbuf = (unsigned char *)malloc(stride * nper + 4);
-      for (k = 0; k < nper; k++) rp[k] = rowbuf + k * stride;
+    { size_t stride = c.out_color_space == JCS_RGB565 ? ((rowbytes + 1) & ~(size_t)1) + ((flags & 512) ? 2 : 0) : rowbytes;
+      size_t off = (c.out_color_space == JCS_RGB565 && (flags & 1024)) ? 2 : 0;
+      if (stride == 0) stride = 1;
+      rowalloc = off + stride * (nper - 1) + rowbytes;
+      rowbase = (unsigned char *)malloc(rowalloc ? rowalloc : 1);
+      rowbuf = rowbase;
+      for (k = 0; k < nper; k++) rp[k] = rowbase + off + k * stride;
       rowstride = stride; }
     while (c.output_scanline < c.output_height) {
       JDIMENSION n, want = nper;
@@ -625,7 +632,7 @@ static unsigned long crop_once(const unsigned char *buf, size_t len, int flags, 
         if (prec <= 8) jpeg_skip_scanlines(&c, c.output_height / 4); else jpeg12_skip_scanlines(&c, c.output_height / 4);
         if (c.output_scanline >= c.output_height) break;
       }
-      memset(rowbuf, fill, rowstride * nper);
+      memset(rowbase, fill, rowalloc);
       if (prec <= 8) n = jpeg_read_scanlines(&c, rp, want); else n = jpeg12_read_scanlines(&c, (J12SAMPARRAY)rp, want);
       if (n == 0) break;
       for (k = 0; k < (int)n; k++) hh = hh * 31 + fnv(rp[k], rowbytes);
